@@ -188,6 +188,9 @@ RULES = {
     'T_self_ctor': dict(
         kind='T', pattern='Self {', replace='DynamicParams {',
         why='`Self` has no meaning in the free-function form', assumes='no assumption: Self is DynamicParams in this impl'),
+    'T_self_ie': dict(
+        kind='T', pattern='interaction_elements: &Self::InteractionElements,', replace='interaction_elements: &InteractionElements,',
+        why='the function body is verified as a free function; `Self::InteractionElements` is `InteractionElements` in this impl (type alias read verbatim from the impl)', assumes='no assumption'),
     # ---- stark/commit.rs
     'R1_for_underscore': dict(
         kind='R1', pattern='for _ in 0..n {', replace='for i__ in 0..n {',
